@@ -111,7 +111,9 @@ func (o jsonObject) pathIdent(pathObject jsonObject, metadata []Metadata) [8]byt
 		}
 	}
 	e, _ := NewJsonNode(id)
-	return e.hashCode([]Metadata{})
+	// Hash like the path object was hashed (set.patch: ident(metadata)),
+	// so that array values in a key are read the same way on both sides.
+	return e.hashCode(metadata)
 }
 
 func (k1 *setkeysMetadata) mergeKeys(k2 map[string]bool) map[string]bool {
